@@ -492,6 +492,95 @@ mod verif_termmgr {
     // family B: fully symbolic hash function and symbolic values
     // ==========================================================================================
 
+    // ---- quick tier: two or three operations each --------------------------------------------------------------
+    // (1) a, b arbitrary: same value <=> same id; get_terminal returns the stored values; counts 1/1 or 2
+    harness_b!(sym2_hashcons_two_values, {
+        any_hash_function();
+        let (tm, mut m) = fresh::<2>();
+        let (a, b): (u8, u8) = (kani::any(), kani::any());
+        let ia = step_get(&tm, &mut m, a).unwrap();
+        let ib = step_get(&tm, &mut m, b).unwrap();
+        assert!((ia == ib) == (a == b));
+        assert!(*unsafe { tm.get_terminal(ia) } == a && *unsafe { tm.get_terminal(ib) } == b);
+        kani::cover!(a == b);
+        kani::cover!(a != b && hash_of(a) == hash_of(b)); // full hash collision
+        kani::cover!(a != b && hash_of(a) & 15 != hash_of(b) & 15);
+        std::mem::forget(tm);
+    });
+    // (2) one terminal: get_edge +1, retain +1, release -1, in an arbitrary order chosen by `ops`
+    harness_b!(sym2_counts_exact, {
+        any_hash_function();
+        let (tm, mut m) = fresh::<2>();
+        let a: u8 = kani::any();
+        let ia = step_get(&tm, &mut m, a).unwrap();
+        let ops: [bool; 4] = kani::any();
+        let mut i = 0;
+        while i < 4 {
+            if ops[i] {
+                step_retain(&tm, &mut m, ia);
+            } else if m.cnt[ia] >= 1 {
+                step_release(&tm, &mut m, ia);
+            }
+            i += 1;
+        }
+        kani::cover!(m.cnt[ia] == 5);
+        kani::cover!(m.cnt[ia] == 0);
+        // (3) black-box reading of "count zero": when the model count is 0, gc() collects the terminal
+        // (with a survivor gc() shrinks the table through the real reserve_rehash: family A)
+        if m.cnt[ia] == 0 {
+            assert!(step_gc(&tm, &mut m) == 1 && tm.len() == 0);
+        }
+        std::mem::forget(tm);
+    });
+    // (4) capacity 1: the store is full after one insertion; a new value is refused twice and nothing changes; the
+    // existing value still succeeds
+    harness_b!(sym1_full_oom_unchanged, {
+        any_hash_function();
+        let (tm, mut m) = fresh::<1>();
+        let (a, v): (u8, u8) = (kani::any(), kani::any());
+        kani::assume(a != v);
+        kani::cover!(hash_of(a) == hash_of(v));
+        let ia = step_get(&tm, &mut m, a).unwrap();
+        let snapshot = m;
+        assert!(step_get(&tm, &mut m, v).is_none());
+        assert!(m.live == snapshot.live && m.val == snapshot.val && m.cnt == snapshot.cnt);
+        assert!(step_get(&tm, &mut m, a) == Some(ia));
+        assert!(m.cnt[ia] == 2 && tm.len() == 1);
+        std::mem::forget(tm);
+    });
+    // (3) capacity 1: insert a, drop the reference, gc() = 1, len() = 0, the index does not find a any more, the slot
+    // is reusable for an arbitrary value c (also c == a: re-inserted as NEW, count 1), then the store is full again
+    harness_b!(sym1_gc_then_reuse, {
+        any_hash_function();
+        let (tm, mut m) = fresh::<1>();
+        let (a, c, d): (u8, u8, u8) = (kani::any(), kani::any(), kani::any());
+        let ia = step_get(&tm, &mut m, a).unwrap();
+        step_release(&tm, &mut m, ia);
+        assert!(step_gc(&tm, &mut m) == 1 && tm.len() == 0);
+        assert!(!index_finds(&tm, a, hash_of(a)));
+        let ic = step_get(&tm, &mut m, c).unwrap();
+        assert!(ic == ia && m.cnt[ic] == 1);
+        assert!(step_get(&tm, &mut m, d).is_some() == (d == c));
+        kani::cover!(c == a);
+        kani::cover!(c != a && d != c);
+        std::mem::forget(tm);
+    });
+    // (5) capacity 2: iter() on the empty manager and after two arbitrary insertions
+    harness_b!(sym2_iter_reports_live, {
+        any_hash_function();
+        let (tm, mut m) = fresh::<2>();
+        step_iter(&tm, &mut m);
+        let (a, b): (u8, u8) = (kani::any(), kani::any());
+        step_get(&tm, &mut m, a).unwrap();
+        step_get(&tm, &mut m, b).unwrap();
+        let n = tm.len();
+        step_iter(&tm, &mut m);
+        kani::cover!(n == 1);
+        kani::cover!(n == 2);
+        std::mem::forget(tm);
+    });
+
+    // ---- thorough tier ----------------------------------------------------------------------------------------
     // (1)(2): a, b arbitrary (equal or not): get a, get b, get a, retain/release; ids and counts follow the model
     harness_b!(sym3_hashcons_counts, {
         any_hash_function();
